@@ -59,7 +59,27 @@ Definition normalize_cross_big (rb ab : Z) (off : Z) (a r0 : list Z) : option (l
   Some (fst (top_phase w false rb 0 res_end (c_res s, cu'))).
 
 
+(* same-radix routine with the cap of the carry propagation through the gap as a parameter: the i64 routines
+   (Limbs.normalize_inter) use 64 steps, the i128 copy in reference/ntt120/vec_znx_big.rs uses 128 *)
+Definition gap_phase_c (cap : nat) (b : Z) (gap : nat) (c : Z) : Z :=
+  fold_left (fun c _ => middle_step_carry_only w b 0 0 c) (seq 0 (Nat.min gap cap)) c.
+
+Definition normalize_inter_c (cap : nat) (b : Z) (off : Z) (a r0 : list Z) : list Z :=
+  let rsz := length r0 in let asz := length a in
+  let '(lsh, lo) := split_offset b off in
+  let res_end := natc (- lo) 0 (zn rsz) in
+  let res_start := natc (zn asz - lo) 0 (zn rsz) in
+  let a_end := natc lo 0 (zn asz) in
+  let a_start := natc (zn rsz + lo) 0 (zn asz) in
+  let a_out := (asz - a_start)%nat in
+  let c0 := carry_phase w b lsh a asz a_out in
+  let r1 := zero_range r0 res_start rsz in
+  let mid := (a_start - a_end)%nat in
+  let '(r2, c2) := mid_phase w true b lsh a res_start a_start mid (r1, c0) in
+  let c3 := if lo <? 0 then gap_phase_c cap b (Z.to_nat (- lo) - rsz) c2 else c2 in
+  fst (top_phase w true b lsh res_end (r2, c3)).
+
 Definition normalize_big (rb ab off : Z) (a r0 : list Z) : option (list Z) :=
-  if rb =? ab then Some (normalize_inter w rb off a r0) else normalize_cross_big rb ab off a r0.
+  if rb =? ab then Some (normalize_inter_c 128 rb off a r0) else normalize_cross_big rb ab off a r0.
 
 End W.
